@@ -88,13 +88,13 @@ def recursive_stream_folds(script):
 
 
 def last_error_call_args(script):
-    """%last_error% (whole, or its peer_id field) used as an argument of a call"""
+    """%last_error% (whole, or any field of it) used as an argument of a call"""
     for n in walk(parse_sexp(script)):
         if len(n) >= 4 and n[0] == "(" and n[1] == "call":
             for a in n[2:]:
                 if isinstance(a, list) and a and a[0] == "[":
                     for x in a[1:]:
-                        if x in ("%last_error%", "%last_error%.$.peer_id", "%last_error%.$.peer_id!"):
+                        if isinstance(x, str) and x.startswith("%last_error%"):
                             return True
     return False
 
@@ -122,7 +122,7 @@ def classify(prop, script, failure):
             return "pending-request-then-catchable-argument-error"
         if failure.get("code") == code_of("InstructionParametersMismatch") and "argument_hash" in (failure.get("msg") or "") \
                 and last_error_call_args(script):
-            return "last-error-peer-id-argument"
+            return "last-error-as-call-argument"
         return None
     if prop == "C09":
         if failure.get("key") == "result-forgotten" and recursive_stream_folds(script):
